@@ -8,5 +8,5 @@ PROP = dict(
     trusted_base=['z3 5.1 / cvc5 1.0.3', 'pyvc symbolic executor and its encoding of Python (DESIGN.md section 2.3)', 'CPython 3.12, PLY 3.11 (A-PLY)'],
     manifest=dict(text='Bounded: select/navigate results compared with an independent relational evaluation on every model state reachable by API histories of depth <=4/5 and on loaded states, all operator sequences up to 3, chains of length 1-4. No obligation is proved yet for this property; the deductive part (apply_query_operators, NavChain) is planned in DESIGN section 5.',
                   note='Stable sort of CPython (A-SORT); the reference evaluator is written from the property text.',
-                  technique='bounded stand-in: run-time contracts on the real functions driven by exhaustive small-scope enumeration (labelled bounded, never counted as proved)'),
+                  technique='bounded stand-in (run-time contracts on the real functions driven by small-scope enumeration; labelled bounded, never counted as proved); no function of this property is within the reach of the deductive tier yet (reasons in DESIGN.md, build-round status)'),
 )
